@@ -2,7 +2,7 @@
   Tie/SemKillw.lean — meaning of the trace of `~deathwatched` = the model's `killw`.
 -/
 import TrompModel.Tie.DeathwatchedDtor
-import TrompModel.Tie.SemNotify
+import TrompModel.Tie.Base
 
 namespace Tromp.Tie
 open World
